@@ -1,3 +1,4 @@
+import BalmProofs.DriversComplete
 import BalmProofs.DriversSpec
 import Balm
 import BalmProofs.AttrTest
